@@ -36,11 +36,16 @@ theorem addKnown_recs_known (w : World) (f : Nat) (h : (w.recs f).row ≠ 0) : a
   simp [h]
 
 theorem rsFinish_stamped (cx : Ctx) (m : Nat) (sc : Script) (w : World) (hp : PlainStamped sc)
-    (hrow : (w.recs m).row ≠ 0) :
+    (hrow : (w.recs m).row ≠ 0) (h0 : (rsFinish cx m sc w).1 = 0) :
     rsFinish cx m sc w =
       (0, some (scriptOut sc w), setRec w m (stampRec (w.recs m) cx.runid (scriptOut sc w))) := by
+  have hk : ¬ cx.crash = some (m, sc.ifchange.length + 1) := by
+    intro hc
+    revert h0
+    unfold rsFinish rsFailNow
+    simp [hp.nofail, hp.stamp, hc, CRASHED]
   unfold rsFinish rsFailNow scriptOut
-  simp [hp.nofail, hp.stamp, hp.exit0, hp.out, addKnown_recs_known w m hrow]
+  simp [hp.nofail, hp.stamp, hp.exit0, hp.out, addKnown_recs_known w m hrow, hk]
 
 theorem stampRec_marked (r : Rec) (R : Nat) (data : Content) (hR : R ≠ 0) :
     (isCheckedR (stampRec r R data) R || isChangedR (stampRec r R data) R) = true := by
@@ -130,7 +135,8 @@ theorem rsBody_stamped (E : Engine) (cx : Ctx) (m : Nat) (sc : Script) (w : Worl
   · subst hrv
     simp only [not_true_eq_false, if_false]
     refine ⟨w2, h2.1, h2.2, ?_⟩
-    rw [rsFinish_stamped cx m sc w2 hp (by rw [h2.1]; exact hrow), h2.1, scriptOut_congr sc h2.2]
+    simp only [not_true_eq_false, if_false] at h0
+    rw [rsFinish_stamped cx m sc w2 hp (by rw [h2.1]; exact hrow) h0, h2.1, scriptOut_congr sc h2.2]
   · simp only [hrv, not_false_eq_true, if_true] at h0
 
 theorem runScript_stamped (E : Engine) (d : Defects) (cx : Ctx) (m : Nat) (sc : Script) (w : World)
@@ -315,7 +321,7 @@ theorem startSelf_stamped_leaf_status (E : Engine) (d : Defects) (cx : Ctx) (m :
   dsimp only
   simp only [hp.nocond, runScript.conds, hleaf, runScript.cmds, hcr, ne_eq, not_true_eq_false, if_false,
     reduceCtorEq]
-  rw [rsFinish_stamped cx m sc _ hp hrow]
+  rw [rsFinish_stamped cx m sc _ hp hrow (by unfold rsFinish rsFailNow; simp [hp.nofail, hp.stamp, hp.exit0, hcr])]
   have hc : ¬ ((0 : Status) = CRASHED) := by decide
   simp only [hc, if_false]
   exact recordNewState_status_zero _ _ _ _ _
